@@ -135,6 +135,9 @@ def compare(G, exp, viol, obs, where):
     else:
         if G.number_of_edges() != 0:
             viol.append({"sig": "C20/zero-block-has-edges", "msg": where})
+        # the stored counts match the graph for a block without edges as well (0 nodes, 0 edges, no width)
+        if (G.graph.get("n", "absent"), G.graph.get("m", "absent"), G.graph.get("w", "absent")) != (0, 0, None):
+            viol.append({"sig": "C20/stored-n-m/zero-block", "msg": f"{where}: n,m,w = {G.graph.get('n', 'absent')},{G.graph.get('m', 'absent')},{G.graph.get('w', 'absent')} expected 0,0,None"})
 
 
 def mini_parse(path):
